@@ -43,6 +43,8 @@ type Sched struct {
 	Steps  int
 	Dumps  int
 	failed string
+	// Crashed: processes whose goroutine died from a panic that nothing recovered
+	Crashed map[string]string
 }
 
 // New creates an empty scheduler.
@@ -79,6 +81,15 @@ func (s *Sched) Go(name string, fn func()) {
 		s.mu.Unlock()
 		close(ready)
 		defer func() {
+			if r := recover(); r != nil {
+				// a panic escaped the process: record it instead of killing the driver
+				s.mu.Lock()
+				if s.Crashed == nil {
+					s.Crashed = map[string]string{}
+				}
+				s.Crashed[name] = fmt.Sprint(r)
+				s.mu.Unlock()
+			}
 			s.mu.Lock()
 			p.done = true
 			p.at = ""
